@@ -20,7 +20,7 @@ def gen_spec(rng, size=None, features=None):
     """features: set of optional feature names to allow."""
     feats = features if features is not None else {
         'hdrs', 'steps', 'multi', 'gensrc', 'copy', 'alias', 'cmd', 'test',
-        'extra', 'default', 'install', 'always', 'subdirs', 'shared', 'implicit'}
+        'extra', 'default', 'install', 'always', 'subdirs', 'shared', 'implicit', 'pch'}
     n = size or rng.randint(4, 22)
     files = {}
     nodes = []
@@ -68,7 +68,7 @@ def gen_spec(rng, size=None, features=None):
         return next(nd for nd in nodes if nd['id'] == ref[1])
 
     kinds = ['obj', 'obj', 'exe', 'exe', 'slib', 'dlib', 'step', 'step', 'copy', 'alias',
-             'cmd', 'test']
+             'cmd', 'test', 'pch']
     for _ in range(n):
         kind = rng.choice(kinds)
         i = nid()
@@ -87,6 +87,8 @@ def gen_spec(rng, size=None, features=None):
                     if out_names(node_of(r))[r[2]].endswith('.h')]
             nd['ghdrs'] = [rng.choice(ghdr)] if ghdr and 'gensrc' in feats and \
                 rng.random() < 0.3 else []
+            pchs = [nd2['id'] for nd2 in nodes if nd2['kind'] == 'pch']
+            nd['pch'] = rng.choice(pchs) if pchs and rng.random() < 0.4 else None
         elif kind in ('exe', 'slib', 'dlib'):
             if kind == 'dlib' and 'shared' not in feats:
                 kind = 'slib'
@@ -97,15 +99,23 @@ def gen_spec(rng, size=None, features=None):
                 use_srcs = rng.sample(srcs, rng.randint(1, min(2, len(srcs))))
             if not use_objs and not use_srcs:
                 use_srcs = [rng.choice(srcs)]
+            pch_str = None
             if use_srcs:
                 sub = ''     # implicit object paths of nested outputs are C05's business
+                # (a string pch with several sources is refused at configure time: one
+                # header step per source - C16's known finding - so exactly one source)
+                if 'pch' in feats and len(use_srcs) == 1 and rng.random() < 0.35:
+                    pch_str = 'pre%d.h' % i
+                    files[pch_str] = '#define PRE%d\n' % i
             libs = [nd2['id'] for nd2 in nodes if nd2['kind'] in ('slib', 'dlib')]
             nd = {'id': i, 'kind': kind,
                   'name': '%s%s%d' % (sub, {'exe': 'e', 'slib': 'l', 'dlib': 'l'}[kind], i),
                   'objs': use_objs, 'srcs': use_srcs,
                   'hdrs': rng.sample(hdrs, rng.randint(0, min(1, len(hdrs)))) if use_srcs else [],
                   'libs': rng.sample(libs, rng.randint(0, min(2, len(libs)))),
-                  'extra': pick_extra()}
+                  'extra': pick_extra(), 'pch_str': pch_str}
+            if pch_str and not nd['hdrs'] and hdrs:
+                nd['hdrs'] = [rng.choice(hdrs)]
         elif kind == 'step':
             if 'steps' not in feats:
                 continue
@@ -148,6 +158,15 @@ def gen_spec(rng, size=None, features=None):
                   'refs': rng.sample(cands, rng.randint(0, min(2, len(cands)))),
                   'files': rng.sample(cands, rng.randint(0, min(1, len(cands)))),
                   'extra': pick_extra()}
+        elif kind == 'pch':
+            if 'pch' not in feats:
+                continue
+            files['pre%d.h' % i] = '#define PRE%d\n' % i
+            ghdr = [r for r in outputs_of({'step'})
+                    if out_names(node_of(r))[r[2]].endswith('.h')]
+            nd = {'id': i, 'kind': 'pch', 'name': '%spp%d' % (sub, i), 'hdr': 'pre%d.h' % i,
+                  'hdrs': rng.sample(hdrs, rng.randint(0, min(2, len(hdrs)))),
+                  'ghdrs': [rng.choice(ghdr)] if ghdr and rng.random() < 0.5 else []}
         elif kind == 'test':
             exes = [nd2['id'] for nd2 in nodes if nd2['kind'] == 'exe']
             if 'test' not in feats:
@@ -163,7 +182,7 @@ def gen_spec(rng, size=None, features=None):
     spec = {'files': files, 'nodes': nodes, 'default': None, 'install': None,
             'test_deps': []}
     buildable = [nd['id'] for nd in nodes if nd['kind'] in ('exe', 'slib', 'dlib', 'step',
-                                                            'copy', 'obj')]
+                                                            'copy', 'obj', 'pch')]
     if 'default' in feats and buildable and rng.random() < 0.3:
         spec['default'] = rng.sample(buildable, rng.randint(1, min(3, len(buildable))))
     inst = [nd['id'] for nd in nodes if nd['kind'] in ('exe', 'slib', 'dlib')]
@@ -190,6 +209,8 @@ def out_names(nd):
         return list(nd['outs'])
     if k == 'copy':
         return [nd['name']]
+    if k == 'pch':
+        return [nd['name'] + '.gch']
     return []
 
 
@@ -216,16 +237,23 @@ def render(spec, stub='vrec'):
         if k == 'obj':
             inc = [_ref(['file', h]) for h in nd['hdrs']] + [_ref(r) for r in nd.get('ghdrs', [])]
             incs = ', includes=[%s]' % ', '.join(inc) if inc else ''
-            L.append('%s = object_file(%r, file=%s%s%s)' % (v, nd['name'], _ref(nd['src']),
-                                                           incs, extra))
+            pch = ', pch=n%d' % nd['pch'] if nd.get('pch') else ''
+            L.append('%s = object_file(%r, file=%s%s%s%s)' % (v, nd['name'], _ref(nd['src']),
+                                                             incs, pch, extra))
+        elif k == 'pch':
+            inc = [_ref(['file', h]) for h in nd['hdrs']] + [_ref(r) for r in nd['ghdrs']]
+            incs = ', includes=[%s]' % ', '.join(inc) if inc else ''
+            L.append('%s = precompiled_header(%r, file=%s%s)' % (v, nd['name'],
+                                                                _ref(['file', nd['hdr']]), incs))
         elif k in ('exe', 'slib', 'dlib'):
             fn = {'exe': 'executable', 'slib': 'static_library', 'dlib': 'shared_library'}[k]
             files = ['n%d' % o for o in nd['objs']] + [repr(s) for s in nd['srcs']]
             libs = ', libs=[%s]' % ', '.join('n%d' % l for l in nd['libs']) if nd['libs'] else ''
             inc = ', includes=[%s]' % ', '.join(_ref(['file', h]) for h in nd['hdrs']) \
                 if nd.get('hdrs') else ''
-            L.append('%s = %s(%r, files=[%s]%s%s%s)' % (v, fn, nd['name'], ', '.join(files),
-                                                       libs, inc, extra))
+            pch = ', pch=%r' % nd['pch_str'] if nd.get('pch_str') else ''
+            L.append('%s = %s(%r, files=[%s]%s%s%s%s)' % (v, fn, nd['name'], ', '.join(files),
+                                                         libs, inc, pch, extra))
         elif k == 'step':
             cmd = [repr(stub), repr('--id=%d' % i)] + [_ref(r) for r in nd['cmd_refs']] + \
                 ["'--touch'", 'build_step.output', "'--end'"]
@@ -251,7 +279,7 @@ def render(spec, stub='vrec'):
             else:
                 L.append('test([%r, %r%s])' % (stub, '--id=%d' % i, ''.join(
                     ', ' + _ref(r) for r in nd['refs'])))
-        if k in ('obj', 'exe', 'slib', 'dlib', 'copy', 'step', 'alias', 'cmd'):
+        if k in ('obj', 'exe', 'slib', 'dlib', 'copy', 'step', 'alias', 'cmd', 'pch'):
             # uniform access to outputs
             multi = k == 'step' and len(nd['outs']) > 1
             L.append('%s_out = %s' % (v, 'list(%s)' % v if multi else '[%s]' % v))
@@ -310,17 +338,29 @@ class Model:
         if k == 'obj':
             ins = [self.fid(nd['src'])] + ['S:' + h for h in nd['hdrs']] + \
                 [self.fid(r) for r in nd.get('ghdrs', [])] + extra
+            if nd.get('pch'):
+                ins.append('B:' + out_names(self.byid[nd['pch']])[0])
             self._step('obj%d' % i, i, 'compile', ins, ['B:' + nd['name'] + '.o'])
             self.node_primary[i] = 'obj%d' % i
+        elif k == 'pch':
+            ins = ['S:' + nd['hdr']] + ['S:' + h for h in nd['hdrs']] + \
+                [self.fid(r) for r in nd['ghdrs']]
+            self._step('pch%d' % i, i, 'pch', ins, ['B:' + nd['name'] + '.gch'])
+            self.node_primary[i] = 'pch%d' % i
         elif k in ('exe', 'slib', 'dlib'):
             objs = ['B:' + out_names(self.byid[o])[0] for o in nd['objs']]
+            gch = []
+            if nd.get('pch_str'):
+                gch = ['B:' + nd['pch_str'] + '.gch']
+                self._step('%s%d/pch' % (k, i), i, 'pch',
+                           ['S:' + nd['pch_str']] + ['S:' + h for h in nd.get('hdrs', [])], gch)
             for s in nd['srcs']:
                 d, b = os.path.split(nd['name'])
                 if k != 'exe':
                     b = 'lib' + b
                 o = 'B:' + os.path.join(d, b + '.int', os.path.splitext(s)[0] + '.o')
                 self._step('%s%d/%s' % (k, i, s), i, 'compile',
-                           ['S:' + s] + ['S:' + h for h in nd.get('hdrs', [])], [o])
+                           ['S:' + s] + ['S:' + h for h in nd.get('hdrs', [])] + gch, [o])
                 objs.append(o)
             libs = ['B:' + out_names(self.byid[l])[0] for l in nd['libs']]
             self._step('%s%d' % (k, i), i, 'link' if k != 'slib' else 'ar',
